@@ -17,6 +17,8 @@ def declare(c):
     c.rule('C12.R1', 'while printing with shrinking disallowed a delete request is refused without any effect', floor=1)
     c.rule('C12.R2', 'while printing with shrinking disallowed an update replaces a region only after '
                      'new.containsRegion(old) returned True; refused requests have no effect', floor=3)
+    c.rule('C12.R5', 'whatever the API command (add, delete, unknown), under the restriction the region list is only appended '
+                     'to (add) or a region is replaced after new.containsRegion(old) returned True', floor=6)
     c.rule('C12.R4', 'API-reachable writers of the region list: append, guarded delete, guarded replace only', floor=3)
     c.rule('C12.R6', 'region geometry is assigned only in the constructors (regions are immutable values)', floor=8)
 
@@ -41,13 +43,13 @@ def delete_rule(ctx, I):
                            'mutations=%s effects=%s' % ([m[1] for m in muts], eff[:3]))
 
 
-def _check_replacement(ctx, p, I, entry, newkey):
+def _check_replacement(ctx, p, I, entry, newkey, rule='C12.R2', what='update'):
     """one accepting path: exactly one in-place replacement, dominated by new.containsRegion(old)=True on the
     element selected by id equality"""
     muts = region_mutations(p)
     where = 'ExcludeRegionState.replaceRegion'
     if [m[1] for m in muts] != ['seq-set']:
-        ctx.report('C12.R2', where, 'update mutations %s' % [m[1] for m in muts],
+        ctx.report(rule, where, 'update mutations %s' % [m[1] for m in muts],
                    'an update must be exactly one in-place replacement')
         return
     i = muts[0][0]
@@ -61,26 +63,26 @@ def _check_replacement(ctx, p, I, entry, newkey):
         if p.st.dom.get(key) == frozenset([True]) and vkey(e[2]) == newkey:
             proven = e
     if proven is None:
-        ctx.report('C12.R2', where, 'replacement without containment proof',
+        ctx.report(rule, where, 'replacement without containment proof (%s)' % what,
                    'the stored region is replaced although new.containsRegion(old) was not established before the '
                    'store (guard missing, inverted, evaluated after the store, or with swapped roles)',
                    detail={'entry': entry, 'decisions': Facts(p, I).decisions()})
         return
     arg = proven[3][0] if proven[3] else None
     if not (isinstance(arg, Obj) and arg.oid.startswith('regions[')):
-        ctx.report('C12.R2', where, 'containment argument %r' % (arg,), 'containsRegion is not applied to the stored region')
+        ctx.report(rule, where, 'containment argument %r' % (arg,), 'containsRegion is not applied to the stored region')
         return
     from .values import vkey
     if vkey(newv) != newkey:
-        ctx.report('C12.R2', where, 'stored value %r' % (newv,), 'the value stored is not the requested region')
+        ctx.report(rule, where, 'stored value %r' % (newv,), 'the value stored is not the requested region')
     idok = any(k[0] == 'eq' and arg.oid in repr(k) and v == frozenset([True]) for k, v in p.st.dom.items())
     if not idok:
-        ctx.report('C12.R2', where, 'replacement without id match',
+        ctx.report(rule, where, 'replacement without id match',
                    'the replaced region was not selected by id equality with the new region')
     # the slot written is the slot the contained region was read from
     idx = ev[2]
     if repr(getattr(idx, 'p', idx)) not in arg.oid:
-        ctx.report('C12.R2', where, 'replacement of another slot',
+        ctx.report(rule, where, 'replacement of another slot',
                    'the region proven to be contained and the slot overwritten differ (%s vs %r)' % (arg.oid, idx))
 
 
@@ -92,6 +94,11 @@ def update_rule(ctx, I):
     for cls in ('RectangularRegion', 'CircularRegion'):
         cases.append(('_handleUpdateExcludeRegion', cls, None))
         cases.append(('on_api_command', cls, 'updateExcludeRegion'))
+    # every other request kind goes through the same obligations: whatever the command, under the restriction the only
+    # mutations are an append (add) or a replacement proven to contain the stored region
+    for cls in ('RectangularRegion', 'CircularRegion'):
+        for cmd in ('addExcludeRegion', 'deleteExcludeRegion', 'someOtherCommand'):
+            cases.append(('on_api_command', cls, cmd))
     for entry, cls, cmd in cases:
         restrict = dict(GUARD)
         restrict[('truthy', ('opaque', 'flask_login.current_user.is_anonymous()'))] = [False]
@@ -115,7 +122,25 @@ def update_rule(ctx, I):
             muts = region_mutations(p)
             ctx.instance('C12.R2', (entry, cls, repr(p.ret)[:40], tuple(m[1] for m in muts)))
             if isinstance(p.ret, Raised):
-                ctx.report('C12.R2', 'ExcludeRegionPlugin.%s' % entry, 'update raises %s' % p.ret.exc, repr(p.ret))
+                ctx.report('C12.R2' if cmd in (None, 'updateExcludeRegion') else 'C12.R5', 'ExcludeRegionPlugin.%s' % entry,
+                           '%s raises %s' % (cmd or 'update', p.ret.exc), repr(p.ret))
+                continue
+            is_update = cmd in (None, 'updateExcludeRegion')
+            if not is_update:
+                ctx.instance('C12.R5', (entry, cls, cmd, repr(p.ret)[:40], tuple(m[1] for m in muts)))
+                kinds = [m[1] for m in muts]
+                if kinds == ['seq-append'] and cmd == 'addExcludeRegion':
+                    continue
+                if not kinds:
+                    continue
+                if kinds == ['seq-set']:
+                    created = [e for e in p.st.trace if e[0] == 'new' and e[1] == cls]
+                    _check_replacement(ctx, p, I, entry, ('obj', created[-1][2]) if created else None, rule='C12.R5',
+                                       what='%s request' % cmd)
+                    continue
+                ctx.report('C12.R5', 'ExcludeRegionPlugin.%s' % entry, '%s mutates the region list by %s' % (cmd, kinds),
+                           'during an active print with shrinking disallowed this request changes the region list in a way '
+                           'that is neither an append nor a containing replacement')
                 continue
             if not muts:
                 eff = effects(p)
@@ -135,7 +160,7 @@ def update_rule(ctx, I):
                 created = [e for e in p.st.trace if e[0] == 'new' and e[1] == cls]
                 newkey = ('obj', created[-1][2]) if created else None
             _check_replacement(ctx, p, I, entry, newkey)
-        if naccept == 0:
+        if naccept == 0 and cmd in (None, 'updateExcludeRegion'):
             ctx.report('C12.R2', 'ExcludeRegionPlugin.%s' % entry, 'no accepting path (%s)' % cls,
                        'no path accepts a containing update: growing a region during a print is impossible')
         ctx.sample({'rule': 'C12.R2', 'entry': entry, 'class': cls, 'paths': len(paths), 'accepting': naccept})
